@@ -56,6 +56,7 @@ opcodes = {
     "memory.size": 0x3F,
     "memory.grow": 0x40,
     "i32.const": 0x41,
+    "f32.const": 0x43,
     "i32.eqz": 0x45,
     "i32.eq": 0x46,
     "i32.ne": 0x47,
@@ -95,6 +96,24 @@ def PackInteger(v):
 
 def WriteInteger(output: BinaryIO, i: int):
     output.write(PackInteger(i))
+
+
+def PackSignedInteger(v):
+    # Signed LEB128: stop once the remaining value is all sign bits and the
+    # sign bit of the last group matches
+    output = []
+    while True:
+        b = v & 0x7F
+        v >>= 7
+        if (v == 0 and (b & 0x40) == 0) or (v == -1 and (b & 0x40) != 0):
+            output.append(b)
+            break
+        output.append(b | 0b1000_0000)
+    return bytes(output)
+
+
+def WriteSignedInteger(output: BinaryIO, i: int):
+    output.write(PackSignedInteger(i))
 
 
 def PackFloat(v):
@@ -367,10 +386,14 @@ class Instruction:
 
     def WriteTo(self, output: BinaryIO):
         WriteByte(output, self.__opcode)
-        # TODO Handle non-integer arguments
         if self.__args:
             for arg in self.__args:
-                WriteInteger(output, arg)
+                if self.__opcode == opcodes["f32.const"]:
+                    WriteFloat(output, arg)
+                elif self.__opcode == opcodes["i32.const"]:
+                    WriteSignedInteger(output, arg)
+                else:
+                    WriteInteger(output, arg)
 
 
 class Code:
